@@ -274,7 +274,7 @@ def sendPenDown(port_name, pen_delay, pin=None, verbose=True):
     Optionally, specify which pin to use
     """
     if port_name is not None:
-        if pin:
+        if pin is not None:
             str_output = 'SP,0,{},{}\r'.format(pen_delay, pin)
         else:
             str_output = 'SP,0,{}\r'.format(pen_delay)
@@ -287,7 +287,7 @@ def sendPenUp(port_name, pen_delay, pin=None, verbose=True):
     Optionally, specify which pin to use
     """
     if port_name is not None:
-        if pin:
+        if pin is not None:
             str_output = 'SP,1,{},{}\r'.format(pen_delay, pin)
         else:
             str_output = 'SP,1,{0}\r'.format(pen_delay)
